@@ -9,6 +9,10 @@ TB = ('Trusted: Coq 8.16.1 kernel and vm_compute (no native_compute); stdlib axi
 CHECKS = {
  'C08': dict(text='All clauses (lengths, zero start, trapezoid/rectangle increments, linearity, exactness for constant/linear acceleration, peak = max|.|, sign/scale laws) are Coq theorems over R about model/M_displacements.v; the model is tied to calc_velo_and_disp_from_accel_arr, AccSignal.velocity/.displacement/.pga/.pgv/.pgd and im.calc_peak by exact (integer x dyadic dt) and 1e-10-tolerance correspondence.',
              note=TB, tech='Coq proof over R (induction on lists, lra/nra) + Q-model correspondence by vm_compute', ref='3/C08'),
+ 'C09': dict(text='Lengths, monotonicity, final value = defining quadrature, sign invariance, alpha^2/|alpha| scaling and zero-padding invariance are Coq theorems over R for Arias, CAV, ISV, the |a| and |v| integrals and unit kinetic energy (model/M_im.v). Standardised CAV: window totals non-negative, non-decreasing and zero below the gate are proved; its upper bound CAV/9.81 and the interpolation between window ends are partial (checked on implementation outputs only). Tie: exact-domain and 1e-10 correspondence through eqsig.im.* on AccSignal objects.',
+             note=TB + 'cav_dp: numpy arange length per window observed, not modelled.', tech='Coq proof over R (list induction, lra/nra) + Q-model correspondence by vm_compute', ref='3/C09'),
+ 'C10': dict(text='First/last-qualifying-index characterisation (with uniqueness), ordering 0<=start<=end<=duration, amplitude-scale invariance (array, Arias and any positively scaling custom measure), shift by k zeros, widening, bracketed-duration definition, empty case, antitonicity in the threshold and joint scaling are Coq theorems over R (model/M_im.v, lib/Where.v). Tie: exact correspondence of indices/times through calc_sig_dur_vals, calc_sig_dur (Arias + custom callables) and calc_brac_dur, thresholds placed on sample values.',
+             note=TB + 'For calc_sig_dur the cumulative series given to the model is the public measure function output on the same signal.', tech='Coq proof over R (np.where characterisation lemmas) + Q-model correspondence by vm_compute', ref='3/C10'),
 }
 NA = {}
 ALL = ['C%02d' % i for i in range(1, 21)]
